@@ -178,7 +178,7 @@ def run_shard(spec):
     cfgs = []
     for cfg in configs.et_configs(g, "quick" if tier == "quick" else "thorough"):
         # sample the refusal subsets (all subsets are C15's job); keep every tag class x power x battery
-        if len(cfg["refused"]) <= 1 or rnd.random() < (0.03 if tier == "quick" else 0.02):
+        if len(cfg["refused"]) <= 1 or rnd.random() < (0.03 if tier == "quick" else 0.25):
             cfgs.append(cfg)
     cfgs += list(configs.dt_configs(g, tier)) + list(configs.es_configs(g, tier))[:8]
     if tier == "quick":
